@@ -290,3 +290,7 @@ class Program(object):
             if not dependents.get(command.result_name)
         ):
             command.run()
+
+        # Commands on a reference cycle are never leaves; running whatever is left detects the cycle
+        for command in self.commands.values():
+            command.run()
